@@ -35,6 +35,7 @@ static uint64_t nsteps = 0;
 static int step_limit_ = 20000;
 static std::vector<uint8_t> prefix_;
 static Result* res_ = 0;
+static Result scratch_; // recording buffers reused across executions (no allocation while a body runs)
 static void (*fatal_handler)(const char*, const std::string&) = 0;
 static uint64_t (*state_probe)() = 0;
 static const double VBASE = 1700000000.0;
@@ -217,8 +218,9 @@ static bool pred_all_exited(void*) { for (int t = 1; t < nT; t++) if (T[t].state
 
 Result run_once(const std::vector<uint8_t>& prefix, const std::function<void()>& body, int step_limit) {
 	resolve();
-	Result r; r.preemptions = 0; r.threads = 0; r.vtime = 0;
-	r.choices.reserve(step_limit + 8); r.points.reserve(step_limit + 8); // no allocation by the scheduler while the body runs (harnesses measure heap deltas)
+	Result& r = scratch_; r.preemptions = 0; r.threads = 0; r.vtime = 0; r.fatal.clear();
+	r.choices.clear(); r.points.clear();
+	if (r.choices.capacity() < (size_t)step_limit + 8) { r.choices.reserve(step_limit + 8); r.points.reserve(step_limit + 8); } // no allocation by the scheduler while the body runs (harnesses measure heap deltas)
 	res_ = &r; prefix_ = prefix; step_limit_ = step_limit; nsteps = 0; vclock = 0; nmx = nsm = 0; cut_here = false;
 	memset(T, 0, sizeof T); memset(condw, 0, sizeof condw);
 	nT = 1; T[0].state = ST_LIVE; T[0].pth = pthread_self();
@@ -228,7 +230,8 @@ Result run_once(const std::vector<uint8_t>& prefix, const std::function<void()>&
 	active = false; me = -1;
 	r.threads = nT; r.vtime = vclock;
 	res_ = 0;
-	return r;
+	Result out; out.choices.assign(r.choices.begin(), r.choices.end()); out.points.assign(r.points.begin(), r.points.end()); out.preemptions = r.preemptions; out.threads = r.threads; out.vtime = r.vtime;
+	return out;
 }
 
 ExploreStats explore(const std::function<void()>& body, const std::function<void(const Result&)>& after, int bound, uint64_t max_exec, int step_limit, bool state_cache) {
